@@ -109,6 +109,14 @@ pub open spec fn solutions_ok(sols: Seq<Solution>) -> bool {
     for e in ('enum PredicatesError', 'struct PredicateErrors', 'enum PredicateError', 'struct ProgramErrors', 'enum ProgramError',
               'struct ConstraintsUnsatisfied', 'enum MutationsError'):
         so.item(e)
+    for e in ('struct Outputs', 'struct DataFromSolution', 'enum DataOutput'):
+        so.item(e)
+    so.fn('decode_mutations', F('decode_mutations',
+          requires='forall|k: int| 0 <= k < outputs.data@.len() ==> ((#[trigger] outputs.data@[k]).solution_index as int) < set.solutions@.len()',
+          head_ghost='let ghost n0 = set.solutions@.len();',
+          loops={2: {'iter_name': 'ito', 'invariant': '''set.solutions@.len() == n0, ito.seq() == outputs.data@, 0 <= ito.index@ <= ito.seq().len(),
+                        forall|k: int| 0 <= k < outputs.data@.len() ==> ((#[trigger] outputs.data@[k]).solution_index as int) < n0'''}},
+          props=('C16', 'C06')))
     so.fn('create_parent_map', F('create_parent_map', ensures="""
             // malformed graphs (invalid edge slice, edge to a missing node) are rejected, well-formed ones accepted
             r is Ok <==> crate::graph_ok(predicate.starts(), predicate.edges@),
